@@ -678,7 +678,13 @@ func script(rng interface{ IntN(int) int }, n, maxTotal int) []int {
 // transport might use (io.Copy's 32 KiB, 64 KiB), deliberately not multiples of them.
 var bigMenu = []int{32767, 32769, 40000, 65535, 65537, 98305, 100001, 131073, 200003}
 
+// rolloverNext makes the next runStream start its handshakes 10 ms before the
+// top of the (virtual) hour and hold the server's response until after it.
+var rolloverNext bool
+
 func runStream(c *mon.Case, r *mon.Run, dir string, chunk int, scenario int, seed uint64, big int) {
+	rollover := rolloverNext
+	rolloverNext = false
 	rng := mon.NewRand(seed)
 	sc := newSrv(seed ^ 0x5e)
 	cf, err := newFactory(dir)
@@ -691,6 +697,10 @@ func runStream(c *mon.Case, r *mon.Run, dir string, chunk int, scenario int, see
 	for round := 0; round < 2; round++ {
 		r.Count("evaluations", 1)
 		wit := map[string]any{"chunking": chunkings[chunk].name, "scenario": scenario, "round": round, "seed": fmt.Sprintf("%x", seed)}
+		if rollover {
+			now := time.Now()
+			time.Sleep(time.Until(now.Truncate(time.Hour).Add(time.Hour - 10*time.Millisecond)))
+		}
 		cw, sw := pair(addr)
 		s2c, c2s := sw.Out(), cw.Out()
 		ch := startDial(cf, sc.pw, cw)
@@ -701,6 +711,14 @@ func runStream(c *mon.Case, r *mon.Run, dir string, chunk int, scenario int, see
 			cw.Close()
 			sw.Close()
 			return
+		}
+		if rollover {
+			before := ss.EpochHour(time.Now().Unix())
+			time.Sleep(50 * time.Millisecond) // the top of the hour passes between the client's hello and the server's response
+			if ss.EpochHour(time.Now().Unix()) != before {
+				r.Count("handshakes_across_hour_rollover", 1)
+			}
+			wit["hour_rollover_during_handshake"] = true
 		}
 		what := "stream-after-" + hello.Type
 		resp, sess := sc.srv.Respond(hello, rng.IntN(ss.MaxUDHPad+1), nil)
@@ -1593,6 +1611,22 @@ func TestCheck(t *testing.T) {
 		}
 	}
 	r.Note("big_writes", "additional family: both sides perform single application writes of 32767..200003 bytes (not multiples of 32 KiB / 64 KiB) between small writes, under all-available / PRNG / 4 KiB-window chunking; counted as big_write_connections")
+	// the epoch hour changes while the handshake is in flight (the server's
+	// response is bound to the hour the client used)
+	for ci := range chunkings {
+		ci := ci
+		r.Bubble("stream-hour-rollover/"+chunkings[ci].name, func(c *mon.Case) {
+			for k := 0; k < r.Pick(1, 6); k++ {
+				dir, err := os.MkdirTemp(base, "br-")
+				if err != nil {
+					t.Fatal(err)
+				}
+				rolloverNext = true
+				safely(c, "stream", func() { runStream(c, r, dir, ci, k%3, r.Sub("stream-rollover", ci, k), 0) })
+				os.RemoveAll(dir)
+			}
+		})
+	}
 	// single large application writes (not multiples of 32 KiB / 64 KiB)
 	for ci := range chunkings {
 		if n := chunkings[ci].name; n != "all" && n != "prng3000" && n != "win4096" {
